@@ -113,8 +113,8 @@ Record carried := mkC {
   c_globals : globals           (* attributes of module main beyond the built-ins *)
 }.
 
-(* Vm::with_built_ins() *)
-Definition init_carried : carried := mkC false [] false mempty 0 [] gempty.
+(* Vm::with_built_ins(): Vm::new has run the core library (core.yl) through execute, so a finished fiber is present *)
+Definition init_carried : carried := mkC false [mkFiber 0 0 [] false false false] false mempty 0 [] gempty.
 
 Definition range_cache_size : nat := 8.
 
@@ -198,9 +198,11 @@ Definition m_reset (c : carried) : carried :=
   with_globals gempty (with_mods mempty (with_chunks 0 (m_reset_stack c))).
 
 (* build_range: hit -> nothing; miss -> push, or replace one entry when the cache is full *)
+Definition range_full (l : list nat) : bool := Nat.leb range_cache_size (List.length l).
+Definition range_hit (k : nat) (l : list nat) : bool := existsb (Nat.eqb k) l.
 Definition m_build_range (k : nat) (c : carried) : carried :=
-  if existsb (Nat.eqb k) (c_ranges c) then c
-  else if Nat.leb range_cache_size (List.length (c_ranges c)) then with_ranges (k :: tl (c_ranges c)) c
+  if range_hit k (c_ranges c) then c
+  else if range_full (c_ranges c) then with_ranges (k :: tl (c_ranges c)) c
   else with_ranges (c_ranges c ++ [k])%list c.
 
 (* ====================================================================================== *)
@@ -270,6 +272,12 @@ Definition m_unwind (k : kind) (msg : string) (s : mstate) : mstate :=
     ms_with_c (with_he (negb (h_catch h)) (with_active f' c)) s
   end.
 
+(* try_handle_error (and the failure arm of call_native): error_ip := Some(ip) (commit 3f29ec2), then unwind_stack *)
+Definition m_raise (k : kind) (msg : string) (s : mstate) : mstate :=
+  let c := ms_c s in
+  let f := active c in
+  m_unwind k msg (ms_with_c (with_active (mkFiber (fb_frames f) (fb_stack f) (fb_handlers f) (fb_retpend f) true (fb_open_upv f)) c) s).
+
 Definition name_error (n : string) : string := "Unhandled NameError: Undefined variable '" ++ n ++ "'.".
 Definition exc_msg (z : Z) : string := "Unhandled exception: " ++ show_Z z.
 Definition circular_msg (m : modk) : string :=
@@ -305,19 +313,19 @@ Definition step (i : instr) (s : mstate) : mstate * list instr :=
   | IPrintNum g =>
       match c_globals c (GVar g) with
       | Some (VNum z) => (ms_print (show_Z z) s, [])
-      | _ => (m_unwind KName (name_error (gname_s g)) s, [])
+      | _ => (m_raise KName (name_error (gname_s g)) s, [])
       end
   | IPrintCall f =>
       match c_globals c (GFun f) with
       | Some (VFn g) =>
           match c_globals c (GVar g) with
           | Some (VNum z) => (ms_print (show_Z (z + 1)) s, [])
-          | _ => (m_unwind KName (name_error (gname_s g)) (ms_with_c (with_active (frames_add 1 (active c)) c) s), [])
+          | _ => (m_raise KName (name_error (gname_s g)) (ms_with_c (with_active (frames_add 1 (active c)) c) s), [])
           end
-      | _ => (m_unwind KName (name_error (fname_s f)) s, [])
+      | _ => (m_raise KName (name_error (fname_s f)) s, [])
       end
   | IDeclClass => (ms_with_c (with_classdef true c) s, [])
-  | IInheritBad => (m_unwind KRuntime superclass_msg s, [])
+  | IInheritBad => (m_raise KRuntime superclass_msg s, [])
   | IDefClass cl z =>
       (* working_class_def.take().expect("Expected ClassDef.") *)
       if c_classdef c
@@ -326,7 +334,7 @@ Definition step (i : instr) (s : mstate) : mstate * list instr :=
   | IUseClass cl =>
       match c_globals c (GCls cl) with
       | Some (VClass z) => (ms_print (show_Z z) s, [])
-      | _ => (m_unwind KName (name_error (cname_s cl)) s, [])
+      | _ => (m_raise KName (name_error (cname_s cl)) s, [])
       end
   | IPush catch =>
       let f := active c in
@@ -338,11 +346,8 @@ Definition step (i : instr) (s : mstate) : mstate * list instr :=
                                        (fb_retpend f) (fb_errip f) (fb_open_upv f)) c) s, [])
   | IThrow z =>
       (* throw_impl: handling_exception := true; error_ip := Some(ip); unwind_stack *)
-      let f := active c in
-      let f' := mkFiber (fb_frames f) (fb_stack f) (fb_handlers f) (fb_retpend f) true (fb_open_upv f) in
-      (m_unwind KRuntime (exc_msg z)
-                (ms_with_c (with_he true (with_active f' c)) s), [])
-  | IBuiltinErr k msg => (m_unwind k msg s, [])
+      (m_raise KRuntime (exc_msg z) (ms_with_c (with_he true c) s), [])
+  | IBuiltinErr k msg => (m_raise k msg s, [])
   | IEndFinally expect =>
       (* end_finally_impl: if handling_exception { unwind_stack } ; take_return_data *)
       if c_he c then
@@ -372,18 +377,18 @@ Definition step (i : instr) (s : mstate) : mstate * list instr :=
       match c_globals c GLeak with
       | Some (VClosure false z) => (ms_print (show_Z z) s, [])
       | Some (VClosure true _) => (ms_with_st Crashed s, [])
-      | _ => (m_unwind KName (name_error "c") s, [])
+      | _ => (m_raise KName (name_error "c") s, [])
       end
   | IRange k => (ms_with_c (m_build_range k c) s, [])
   | IStartImport m =>
       match c_mods c m with
       | Some true => (s, [])                               (* already imported: push the module *)
-      | Some false => (m_unwind KImport (circular_msg m) s, [])
+      | Some false => (m_raise KImport (circular_msg m) s, [])
       | None =>
           let s1 := mkMS c (ms_out s) (ms_loads s ++ [m])%list (ms_exc s) (ms_st s) in
           match m with
-          | MMissing => (m_unwind KImport (missing_msg m) s1, [])
-          | MSyntax => (m_unwind KImport modcompile_msg s1, [])
+          | MMissing => (m_raise KImport (missing_msg m) s1, [])
+          | MSyntax => (m_raise KImport modcompile_msg s1, [])
           | _ =>
             (* compile (one chunk), self.module(path) registers it, its body is called *)
             let c1 := with_active (frames_add 1 (active c)) (with_mods (mset m false (c_mods c)) (m_add_chunks 1 c)) in
@@ -396,7 +401,7 @@ Definition step (i : instr) (s : mstate) : mstate * list instr :=
   | IUseMod m =>
       match c_globals c (GMod m) with
       | Some (VMod m') => (ms_print (mod_v m') s, [])
-      | _ => (m_unwind KName (name_error (mod_alias m)) s, [])
+      | _ => (m_raise KName (name_error (mod_alias m)) s, [])
       end
   end.
 
@@ -422,7 +427,7 @@ Fixpoint repeat_instr (i : instr) (n : nat) : list instr := match n with O => []
 Definition code_where (w : where_) : list instr :=
   match w with
   | WTop => [IThrow 1]
-  | WNested d => (repeat_instr ICall (S d) ++ [IThrow 1])%list
+  | WNested d => (repeat_instr ICall (depth_nat d) ++ [IThrow 1])%list
   | WFiber => [IFiberEnter; IThrow 1]
   | WTryFinally => [IPush false; IThrow 1; IOut "fin"; IEndFinally true]
   | WCatch => [IPush true; IThrow 1; IThrow 2]
@@ -449,7 +454,7 @@ Definition code_of (s : snip) : list instr :=
   | SnTryCatch => [IPush true; IThrow 7; IOut "7"]
   | SnFiberOk => [IFiberEnter; IFiberLeave; IOut "5"]
   | SnCaptureOk => [ICall; ICapture 42; ICloseUpv; IRet]
-  | SnRange k => IRange k :: map (fun i => IOut (show_nat i)) (seq 0 k)
+  | SnRange k => IRange (depth_nat k) :: map (fun i => IOut (show_nat i)) (seq 0 (depth_nat k))
   | SnUseLeak => [IUseLeak]
   | SnImport m => [IStartImport m; IFinishImport m true; IUseMod m]
   | SnUseMod m => [IUseMod m]
@@ -460,7 +465,7 @@ Definition code_of (s : snip) : list instr :=
 Definition chunks_where (w : where_) : nat :=
   match w with
   | WTop | WTryFinally | WCatch | WFinally | WClassDef | WBuiltin => 1
-  | WNested d => S (S d)
+  | WNested d => S (depth_nat d)
   | WFiber | WFinallyRet | WClassDefNested => 2
   | WCapture => 3
   end.
